@@ -7,6 +7,8 @@ import PartituraModel.Model.KernWrite
 import PartituraModel.Proofs.C19
 import PartituraModel.Proofs.Digits
 
+set_option linter.unusedSimpArgs false
+
 namespace C19W
 open Model Model.Kern Model.KernWrite C19P
 
@@ -358,5 +360,544 @@ theorem letters_spec (n : XNote) (up lo : Char) (hs : lookup n.step stepLetters 
         rw [this]
         simp only [if_true, Option.some.injEq, Prod.mk.injEq, true_and]
         omega
+
+structure TokSpec (divs : Nat) (n : XNote) (cs : List Char) (t : SubTok) : Prop where
+  tok : noteTok n = some cs
+  parse : parseSub cs = some t
+  value : subValue t = some (valOf divs n)
+  grace : t.grace = decide (n.kind = 1)
+  pitch : t.pitch = if n.kind = 2 then none else some (n.step, n.octave)
+  alter : n.kind ≠ 2 → t.alter = n.alter.getD 0
+  nosp : ' ' ∉ cs
+  head : ∃ h rest, cs = h :: rest ∧ h ∈ 'q' :: digitChars
+
+theorem markTok_prof (n : XNote) :
+    ∃ o u c, prof (markTok n) = ⟨[], [], 0, 0, 0, false, false, o, u, c, false⟩ := by
+  unfold markTok
+  split
+  · exact ⟨_, _, _, rfl⟩
+  · split
+    · exact ⟨_, _, _, rfl⟩
+    · split
+      · exact ⟨_, _, _, rfl⟩
+      · split
+        · exact ⟨_, _, _, rfl⟩
+        · exact ⟨_, _, _, rfl⟩
+
+/-- the pitch part of a token of a note or grace note -/
+theorem pitchTok_spec (n : XNote) (hk : n.kind ≠ 2) (hs : (lookup n.step stepLetters).isSome = true)
+    (ha : (match n.alter with | none => true | some a => (lookup a accToSign).isSome) = true) :
+    ∃ letters sign s f, pitchTok n = some (letters ++ sign) ∧ prof letters = plainProf [] letters 0 0 0 ∧
+      pitchOf letters = some (n.step, n.octave) ∧ prof sign = plainProf [] [] 0 s f ∧
+      ((s : Nat) : Int) - ((f : Nat) : Int) = n.alter.getD 0 := by
+  cases hl : lookup n.step stepLetters with
+  | none => simp [hl] at hs
+  | some ul =>
+    obtain ⟨up, lo⟩ := ul
+    obtain ⟨letters, hlet, hprof, hpitch⟩ := letters_spec n up lo hl
+    cases hal : n.alter with
+    | none =>
+      refine ⟨letters, [], 0, 0, ?_, hprof, hpitch, rfl, by simp⟩
+      simp only [pitchTok, hk, if_false, hl, hal, hlet, List.append_nil]
+    | some a =>
+      simp only [hal] at ha
+      cases hsg : lookup a accToSign with
+      | none => simp [hsg] at ha
+      | some sg =>
+        obtain ⟨hp, hv⟩ := accToSign_facts (a, sg) (lookup_mem _ _ _ hsg)
+        simp only at hp hv
+        refine ⟨letters, sg, _, _, ?_, hprof, hpitch, hp, by simpa using hv⟩
+        simp only [pitchTok, hk, if_false, hl, hal, hlet, hsg, Option.map_some]
+
+theorem noteTok_spec (divs : Nat) (n : XNote) (h : noteOk divs n = true) : ∃ cs t, TokSpec divs n cs t := by
+  simp only [noteOk, Bool.and_eq_true, Bool.or_eq_true, decide_eq_true_eq] at h
+  obtain ⟨⟨hk, hp⟩, hd⟩ := h
+  obtain ⟨mo, mu, mc, hm⟩ := markTok_prof n
+  by_cases k2 : n.kind = 2
+  · -- a rest
+    have k1 : n.kind ≠ 1 := by omega
+    rcases hd with hd | hd
+    · exact absurd hd k1
+    · cases hsym : n.sym with
+      | none => simp [hsym] at hd
+      | some sd =>
+        simp only [hsym, decide_eq_true_eq] at hd
+        obtain ⟨num, R, htok, hprof, hR, hval, hh, hrest, hnum, hhd⟩ := symTok_spec sd _ hd
+        have hmark : markTok n = [] := by simp [markTok, k2]
+        have hcs : noteTok n = some (num ++ List.replicate sd.dots '.' ++ ['r'] ++ []) := by
+          simp [noteTok, durTok, k1, hsym, htok, pitchTok, k2, hmark]
+        have hpr : prof (num ++ List.replicate sd.dots '.' ++ ['r'] ++ []) =
+            ⟨num, [], sd.dots, 0, 0, false, true, false, false, false, false⟩ := by
+          rw [List.append_nil, prof_append, prof_append, hprof, prof_dots]
+          simp [Prof.add, prof, count, numP, isPitchLetter]
+        have hne : num ≠ [] := by rw [hnum]; simp
+        refine ⟨_, { recip := some R, dots := sd.dots, pitch := none, alter := 0, grace := false,
+                     tOpen := false, tCont := false, tClose := false }, hcs, ?_, ?_, ?_, ?_, ?_, ?_, ?_⟩
+        · rw [parseSub_prof, hpr]
+          simp [parseProf, hne, hR]
+        · simp [subValue, hval, valOf, k1]
+        · simp [k1]
+        · simp [k2]
+        · intro hc; exact absurd k2 hc
+        · have := congrArg Prof.sp hpr
+          simp only [prof] at this
+          simpa [List.contains_eq_mem] using this
+        · exact ⟨hh, hrest ++ List.replicate sd.dots '.' ++ ['r'] ++ [], by simp [hnum], List.mem_cons_of_mem _ hhd⟩
+  · rcases hp with hp | hp
+    · exact absurd hp k2
+    · obtain ⟨letters, sign, s, f, hpt, hpl, hpo, hps, hsf⟩ := pitchTok_spec n k2 hp.1 hp.2
+      by_cases k1 : n.kind = 1
+      · -- a grace note
+        have hcs : noteTok n = some (['q'] ++ (letters ++ sign) ++ markTok n) := by
+          simp [noteTok, durTok, k1, hpt]
+        have hpr : prof (['q'] ++ (letters ++ sign) ++ markTok n) =
+            ⟨[], letters, 0, s, f, true, false, mo, mu, mc, false⟩ := by
+          rw [prof_append, prof_append, prof_append, hpl, hps, hm]
+          simp [Prof.add, prof, count, numP, isPitchLetter]
+        refine ⟨_, { recip := none, dots := 0, pitch := some (n.step, n.octave), alter := n.alter.getD 0, grace := true,
+                     tOpen := mo, tCont := mu, tClose := mc }, hcs, ?_, ?_, ?_, ?_, ?_, ?_, ?_⟩
+        · rw [parseSub_prof, hpr]
+          simp [parseProf, hpo, hsf]
+        · simp [subValue, valOf, k1]
+        · simp [k1]
+        · simp [k2]
+        · intro _; rfl
+        · have := congrArg Prof.sp hpr
+          simp only [prof] at this
+          simpa [List.contains_eq_mem] using this
+        · exact ⟨'q', (letters ++ sign) ++ markTok n, by simp, by simp⟩
+      · -- an ordinary note
+        rcases hd with hd | hd
+        · exact absurd hd k1
+        · cases hsym : n.sym with
+          | none => simp [hsym] at hd
+          | some sd =>
+            simp only [hsym, decide_eq_true_eq] at hd
+            obtain ⟨num, R, htok, hprof, hR, hval, hh, hrest, hnum, hhd⟩ := symTok_spec sd _ hd
+            have hcs : noteTok n = some (num ++ List.replicate sd.dots '.' ++ (letters ++ sign) ++ markTok n) := by
+              simp [noteTok, durTok, k1, hsym, htok, hpt]
+            have hpr : prof (num ++ List.replicate sd.dots '.' ++ (letters ++ sign) ++ markTok n) =
+                ⟨num, letters, sd.dots, s, f, false, false, mo, mu, mc, false⟩ := by
+              rw [prof_append, prof_append, prof_append, prof_append, hprof, prof_dots, hpl, hps, hm]
+              simp [Prof.add]
+            have hne : num ≠ [] := by rw [hnum]; simp
+            refine ⟨_, { recip := some R, dots := sd.dots, pitch := some (n.step, n.octave), alter := n.alter.getD 0,
+                         grace := false, tOpen := mo, tCont := mu, tClose := mc }, hcs, ?_, ?_, ?_, ?_, ?_, ?_, ?_⟩
+            · rw [parseSub_prof, hpr]
+              simp [parseProf, hne, hR, hpo, hsf]
+            · simp [subValue, hval, valOf, k1]
+            · simp [k1]
+            · simp [k2]
+            · intro _; rfl
+            · have := congrArg Prof.sp hpr
+              simp only [prof] at this
+              simpa [List.contains_eq_mem] using this
+            · exact ⟨hh, hrest ++ List.replicate sd.dots '.' ++ (letters ++ sign) ++ markTok n, by simp [hnum],
+                List.mem_cons_of_mem _ hhd⟩
+
+/-! ## nothing is lost when the raw notes are assembled into parts -/
+
+theorem mem_insertUniq {α : Type} [BEq α] [LawfulBEq α] (a b : α) (l : List α) :
+    b ∈ insertUniq a l ↔ b = a ∨ b ∈ l := by
+  unfold insertUniq
+  split
+  · rename_i h
+    have : a ∈ l := by simpa [List.contains_eq_mem] using h
+    constructor
+    · intro hb; exact Or.inr hb
+    · rintro (rfl | hb)
+      · exact this
+      · exact hb
+  · simp [List.mem_append, or_comm]
+
+theorem mem_dedup_aux {α : Type} [BEq α] [LawfulBEq α] (l acc : List α) (b : α) :
+    b ∈ l.foldl (fun acc a => insertUniq a acc) acc ↔ b ∈ acc ∨ b ∈ l := by
+  induction l generalizing acc with
+  | nil => simp
+  | cons a rest ih =>
+    simp only [List.foldl_cons, ih, mem_insertUniq, List.mem_cons]
+    tauto
+
+theorem mem_dedup {α : Type} [BEq α] [LawfulBEq α] (l : List α) (b : α) : b ∈ dedup l ↔ b ∈ l := by
+  simp [dedup, mem_dedup_aux]
+
+theorem exists_zip_right {α β : Type} (l : List α) (l' : List β) (h : l.length = l'.length) (a : α) (ha : a ∈ l) :
+    ∃ b, (a, b) ∈ l.zip l' := by
+  induction l generalizing l' with
+  | nil => cases ha
+  | cons x xs ih =>
+    cases l' with
+    | nil => simp at h
+    | cons y ys =>
+      simp only [List.length_cons, Nat.add_right_cancel_iff] at h
+      rcases List.mem_cons.mp ha with rfl | ha
+      · exact ⟨y, by simp⟩
+      · obtain ⟨b, hb⟩ := ih ys h ha
+        exact ⟨b, by simp [hb]⟩
+
+theorem tieFlags_length (ns : List TNote) : (tieFlags ns).length = ns.length := by
+  simp [tieFlags]
+
+/-- every pitched raw note of a voice column is among the column's notes, with the same time, value, spelling and staff -/
+theorem colPart_mem (raw : List RawNote) (offs : List (Nat × Nat)) (r : RawNote) (hr : r ∈ raw) (hk : r.kind ≠ 2) :
+    ∃ m ∈ (colPart raw offs (r.main, r.pos)).1, m.onset = r.onset ∧ m.dur = r.dur ∧ m.kind = r.kind ∧ m.step = r.step ∧
+      m.alter = r.alter ∧ m.octave = r.octave ∧ m.staff = r.staff := by
+  have h1 : r ∈ (raw.filter fun (n : RawNote) => n.main = r.main && n.pos = r.pos).filter fun (n : RawNote) => n.kind ≠ 2 := by
+    simp [List.mem_filter, hr, hk]
+  obtain ⟨fl, hfl⟩ := exists_zip_right _ (tieFlags (((raw.filter fun (n : RawNote) => n.main = r.main && n.pos = r.pos).filter
+    fun (n : RawNote) => n.kind ≠ 2).map tnoteOf)) (by simp [tieFlags_length]) r h1
+  refine ⟨pitchedNote (1 + (lookup r.main offs).getD 0 + r.pos) (r, fl), ?_, ?_⟩
+  · simp only [colPart]
+    apply List.mem_append_left
+    exact List.mem_map.mpr ⟨(r, fl), hfl, rfl⟩
+  · simp [pitchedNote]
+
+theorem mkPart_mem (st : Kern.St) (m : Nat) (r : RawNote) (hr : r ∈ st.notes) (hm : r.main = m) (hk : r.kind ≠ 2) :
+    ∃ x ∈ (mkPart st [m]).notes, x.onset = r.onset ∧ x.dur = r.dur ∧ x.kind = r.kind ∧ x.step = r.step ∧
+      x.alter = r.alter ∧ x.octave = r.octave ∧ x.staff = r.staff := by
+  have hraw : r ∈ st.notes.reverse.filter fun (n : RawNote) => [m].contains n.main := by
+    simp [List.mem_filter, hr, hm]
+  obtain ⟨x, hx, hfacts⟩ := colPart_mem _ (voiceOffsets st.widths [m] 0) r hraw hk
+  refine ⟨x, ?_, hfacts⟩
+  simp only [mkPart, List.mem_mergeSort]
+  apply List.mem_flatten.mpr
+  refine ⟨_, ?_, hx⟩
+  apply List.mem_map.mpr
+  refine ⟨colPart _ _ (r.main, r.pos), ?_, rfl⟩
+  apply List.mem_map.mpr
+  refine ⟨(r.main, r.pos), ?_, rfl⟩
+  rw [mem_dedup]
+  exact List.mem_map.mpr ⟨r, hraw, rfl⟩
+
+/-- spines that are parts of their own: every pitched raw note is a note of the part of its spine -/
+theorem assemble_mem (st : Kern.St) (mains : List Nat) (hs : st.same = false) (r : RawNote) (hr : r ∈ st.notes)
+    (hm : r.main ∈ mains) (hk : r.kind ≠ 2) :
+    ∃ p ∈ assemble st mains, ∃ x ∈ p.notes, x.onset = r.onset ∧ x.dur = r.dur ∧ x.kind = r.kind ∧ x.step = r.step ∧
+      x.alter = r.alter ∧ x.octave = r.octave ∧ x.staff = r.staff := by
+  obtain ⟨x, hx, hf⟩ := mkPart_mem st r.main r hr rfl hk
+  refine ⟨mkPart st [r.main], ?_, x, hx, hf⟩
+  simp only [assemble, hs, Bool.false_eq_true, if_false, List.mem_reverse]
+  exact List.mem_map.mpr ⟨r.main, hm, rfl⟩
+
+/-! ## the columns of the state machine while it reads a document written by the exporter -/
+
+/-- the spines: one per writer column, numbered from `j`, all `**kern`, standing at `cur c`, on staff `stf c` -/
+def kcolsFrom (cur : Nat × Nat → Rat) (stf : Nat × Nat → Nat) : Nat → List (Nat × Nat) → List Col
+  | _, [] => []
+  | j, c :: rest => ⟨j, true, cur c, stf c⟩ :: kcolsFrom cur stf (j + 1) rest
+
+theorem kcolsFrom_length (cur stf) (j : Nat) (cols : List (Nat × Nat)) : (kcolsFrom cur stf j cols).length = cols.length := by
+  induction cols generalizing j with
+  | nil => rfl
+  | cons c rest ih => simp [kcolsFrom, ih]
+
+theorem withPosAux_kcols (cur stf) (cols : List (Nat × Nat)) (j : Nat) (prev : Option Nat) (k : Nat)
+    (hp : ∀ m, prev = some m → m < j) :
+    withPosAux (kcolsFrom cur stf j cols) prev k = (kcolsFrom cur stf j cols).map fun c => (c, 0) := by
+  induction cols generalizing j prev k with
+  | nil => rfl
+  | cons c rest ih =>
+    have hne : prev ≠ some j := fun h => by have := hp j h; omega
+    simp only [kcolsFrom, withPosAux, hne, if_false, List.map_cons]
+    congr 1
+    exact ih (j + 1) (some j) 0 (fun m hm => by simp at hm; omega)
+
+theorem withPos_kcols (cur stf) (cols : List (Nat × Nat)) :
+    withPos (kcolsFrom cur stf 0 cols) = (kcolsFrom cur stf 0 cols).map fun c => (c, 0) :=
+  withPosAux_kcols cur stf cols 0 none 0 (fun m hm => by simp at hm)
+
+/-- an interpretation cell that is not a spine path: reads on every `**kern` spine, may set the staff,
+    and leaves notes, part grouping and positions alone -/
+structure TandemOK (cell : List Char) (newStaff : Option Nat) : Prop where
+  np1 : cell ≠ "*^".toList
+  np2 : cell ≠ "*v".toList
+  np3 : cell ≠ "*-".toList
+  ok : ∀ (st : Kern.St) (k : Col) (p : Nat), k.kern = true →
+    ∃ st', tandem st k p cell = some (st', { k with staff := newStaff.getD k.staff }) ∧ st'.notes = st.notes ∧ st'.same = st.same
+
+theorem interpRow_spec (cur stf) (cell : Nat × Nat → List Char) (ns : Nat × Nat → Option Nat)
+    (cols : List (Nat × Nat)) (hc : ∀ c ∈ cols, TandemOK (cell c) (ns c))
+    (st : Kern.St) (j : Nat) (acc : List Col) (b : Bool) :
+    ∃ st', interpRow st ((kcolsFrom cur stf j cols).map fun c => (c, 0)) (cols.map cell) acc b
+        = some (st', acc.reverse ++ kcolsFrom cur (fun c => (ns c).getD (stf c)) j cols) ∧
+      st'.notes = st.notes ∧ st'.same = st.same := by
+  induction cols generalizing st j acc b with
+  | nil => exact ⟨st, by simp [kcolsFrom, interpRow], rfl, rfl⟩
+  | cons c rest ih =>
+    have hcc := hc c (by simp)
+    obtain ⟨st1, h1, hn1, hs1⟩ := hcc.ok st ⟨j, true, cur c, stf c⟩ 0 rfl
+    obtain ⟨st2, h2, hn2, hs2⟩ := ih (fun x hx => hc x (by simp [hx])) st1 (j + 1)
+      ({ main := j, kern := true, cursor := cur c, staff := (ns c).getD (stf c) } :: acc) false
+    refine ⟨st2, ?_, by rw [hn2, hn1], by rw [hs2, hs1]⟩
+    simp only [kcolsFrom, List.map_cons, interpRow, hcc.np1, hcc.np2, hcc.np3, if_false, h1]
+    rw [h2]
+    simp [kcolsFrom]
+
+theorem barRow_spec (cps : List (Col × Nat)) (cells : List (List Char)) (h : cps.length = cells.length) (st : Kern.St) :
+    ∃ st', barRow st cps cells = some st' ∧ st'.notes = st.notes ∧ st'.same = st.same ∧ st'.cols = st.cols := by
+  induction cps generalizing cells st with
+  | nil =>
+    cases cells with
+    | nil => exact ⟨st, rfl, rfl, rfl, rfl⟩
+    | cons _ _ => simp at h
+  | cons cp rest ih =>
+    cases cells with
+    | nil => simp at h
+    | cons cell cells =>
+      simp only [List.length_cons, Nat.add_right_cancel_iff] at h
+      obtain ⟨c, p⟩ := cp
+      simp only [barRow]
+      split
+      · obtain ⟨st', h1, h2, h3, h4⟩ := ih cells h { st with bars := ⟨c.main, p, c.cursor, firstNat cell⟩ :: st.bars }
+        exact ⟨st', h1, h2, h3, h4⟩
+      · exact ih cells h st
+
+/-! ### data rows -/
+
+theorem subNotes_of (k : Col) (p : Nat) (toks : List SubTok) (h : ∀ t ∈ toks, ∃ d, subValue t = some d) :
+    ∃ ns, subNotes k p toks = some ns ∧ ∀ t ∈ toks, ∀ d, subValue t = some d → noteOf k p t d ∈ ns := by
+  induction toks with
+  | nil => exact ⟨[], rfl, by simp⟩
+  | cons t rest ih =>
+    obtain ⟨d, hd⟩ := h t (by simp)
+    obtain ⟨ns, hns, hmem⟩ := ih (fun x hx => h x (by simp [hx]))
+    refine ⟨noteOf k p t d :: ns, by simp [subNotes, hd, hns], ?_⟩
+    intro x hx d' hd'
+    rcases List.mem_cons.mp hx with rfl | hx
+    · rw [hd] at hd'
+      simp at hd'
+      subst hd'
+      simp
+    · exact List.mem_cons_of_mem _ (hmem x hx d' hd')
+
+theorem tokenNotes_of (k : Col) (p : Nat) (toks : List SubTok) (a : Rat)
+    (h : ∀ t ∈ toks, ∃ d, subValue t = some d) (ha : tokAdv toks = some a) :
+    ∃ ns, tokenNotes k p toks = some (ns, a) ∧ ∀ t ∈ toks, ∀ d, subValue t = some d → noteOf k p t d ∈ ns := by
+  obtain ⟨ns, hns, hmem⟩ := subNotes_of k p toks h
+  refine ⟨ns, ?_, hmem⟩
+  simp only [tokAdv] at ha
+  cases hta : tokenAdvance toks with
+  | none => simp [hta] at ha
+  | some x =>
+    simp only [hta, Option.map_some, Option.some.injEq] at ha
+    simp only [tokenNotes, hns, hta, Option.some.injEq, Prod.mk.injEq, true_and]
+    exact ha
+
+theorem lookup_none_of_lt (anchors : List (Nat × Rat)) (g : Nat) (h : ∀ e ∈ anchors, e.1 < g) : lookup g anchors = none := by
+  induction anchors with
+  | nil => rfl
+  | cons e rest ih =>
+    obtain ⟨e1, e2⟩ := e
+    have : e1 < g := h (e1, e2) (by simp)
+    have hne : ¬ (e1 = g) := by omega
+    simp only [lookup, hne, if_false]
+    exact ih (fun x hx => h x (by simp [hx]))
+
+/-- what a cell of a data row is, for the spine of writer column `c` -/
+inductive CellKind (cell : List Char) (toks : List SubTok) (adv : Rat) : Prop where
+  | null (h : cell = ['.']) (ht : toks = []) (ha : adv = 0)
+  | tandem (hd : cell ≠ ['.']) (hb : startsWith cell "!" = false) (hs : startsWith cell "*" = true)
+      (ok : TandemOK cell none) (ht : toks = []) (ha : adv = 0)
+  | token (hd : cell ≠ ['.']) (hb : startsWith cell "!" = false) (hs : startsWith cell "*" = false)
+      (hp : parseToken cell = some toks) (hv : ∀ t ∈ toks, ∃ d, subValue t = some d) (hadv : tokAdv toks = some adv)
+
+theorem dataRow_spec (cur stf) (cell : Nat × Nat → List Char) (toks : Nat × Nat → List SubTok) (adv : Nat × Nat → Rat)
+    (cols : List (Nat × Nat)) (hc : ∀ c ∈ cols, CellKind (cell c) (toks c) (adv c))
+    (st : Kern.St) (hsame : st.same = false) (j : Nat) (acc : List Col) (anchors : List (Nat × Rat))
+    (hanch : ∀ e ∈ anchors, e.1 < j + 1) :
+    ∃ st' new, dataRow st ((kcolsFrom cur stf j cols).map fun c => (c, 0)) (cols.map cell) acc anchors
+        = some (st', acc.reverse ++ kcolsFrom (fun c => cur c + adv c) stf j cols) ∧
+      st'.notes = new ++ st.notes ∧ st'.same = false ∧
+      (∀ r ∈ new, j ≤ r.main ∧ r.main < j + cols.length) ∧
+      (∀ c ∈ cols, ∀ t ∈ toks c, ∀ d, subValue t = some d →
+        ∃ m, noteOf ⟨m, true, cur c, stf c⟩ 0 t d ∈ new) := by
+  induction cols generalizing st j acc anchors with
+  | nil => exact ⟨st, [], by simp [kcolsFrom, dataRow], by simp, hsame, by simp, by simp⟩
+  | cons c rest ih =>
+    have hrest : ∀ x ∈ rest, CellKind (cell x) (toks x) (adv x) := fun x hx => hc x (by simp [hx])
+    cases hc c (by simp) with
+    | null h ht ha =>
+      obtain ⟨st', new, h1, h2, h3, h4, h5⟩ := ih hrest st hsame (j + 1) (⟨j, true, cur c, stf c⟩ :: acc) anchors
+        (fun e he => by have := hanch e he; omega)
+      refine ⟨st', new, ?_, h2, h3, ?_, ?_⟩
+      · simp only [kcolsFrom, List.map_cons, dataRow, h, Bool.or_true, Bool.true_or, if_true]
+        rw [h1]
+        simp [kcolsFrom, ha]
+      · intro r hr; have := h4 r hr; simp only [List.length_cons]; omega
+      · intro x hx t htk d hd
+        rcases List.mem_cons.mp hx with rfl | hx
+        · rw [ht] at htk; cases htk
+        · exact h5 x hx t htk d hd
+    | tandem hd hb hs ok ht ha =>
+      obtain ⟨st1, ht1, hn1, hs1⟩ := ok.ok st ⟨j, true, cur c, stf c⟩ 0 rfl
+      obtain ⟨st', new, h1, h2, h3, h4, h5⟩ := ih hrest st1 (by rw [hs1]; exact hsame) (j + 1)
+        (⟨j, true, cur c, stf c⟩ :: acc) anchors (fun e he => by have := hanch e he; omega)
+      refine ⟨st', new, ?_, by rw [h2, hn1], h3, ?_, ?_⟩
+      · have e1 : cell c ≠ "*^".toList := ok.np1
+        have e2 : cell c ≠ "*v".toList := ok.np2
+        have e3 : cell c ≠ "*-".toList := ok.np3
+        simp only [kcolsFrom, List.map_cons, dataRow, hd, hb, hs, Bool.not_true, Bool.false_or, decide_false,
+          Bool.false_eq_true, if_false, if_true, e1, e2, e3, Bool.or_self, ht1]
+        simp only [Option.getD_none] at h1 ⊢
+        rw [h1]
+        simp [kcolsFrom, ha]
+      · intro r hr; have := h4 r hr; simp only [List.length_cons]; omega
+      · intro x hx t htk d hd'
+        rcases List.mem_cons.mp hx with rfl | hx
+        · rw [ht] at htk; cases htk
+        · exact h5 x hx t htk d hd'
+    | token hd hb hs hp hv hadv =>
+      obtain ⟨scols, snotes, sbars, sts, sks, scl, spt, sit, sw, ssame⟩ := st
+      simp only at hsame
+      subst hsame
+      obtain ⟨ns, hns, hmem⟩ := tokenNotes_of ⟨j, true, cur c, stf c⟩ 0 (toks c) (adv c) hv hadv
+      have hlk : lookup (j + 1) anchors = none := lookup_none_of_lt anchors (j + 1) hanch
+      obtain ⟨st', new, h1, h2, h3, h4, h5⟩ := ih hrest ⟨scols, ns.reverse ++ snotes, sbars, sts, sks, scl, spt, sit, sw, false⟩ rfl (j + 1)
+        (⟨j, true, cur c + adv c, stf c⟩ :: acc) ((j + 1, cur c) :: anchors)
+        (fun e he => by
+          rcases List.mem_cons.mp he with rfl | he
+          · simp
+          · have := hanch e he; omega)
+      have hsub : subNotes ⟨j, true, cur c, stf c⟩ 0 (toks c) = some ns := (tokenNotes_adv _ _ _ _ _ hns).2
+      have hmain := subNotes_onset _ _ _ _ hsub
+      refine ⟨st', new ++ ns.reverse, ?_, by rw [h2]; simp, h3, ?_, ?_⟩
+      · simp only [kcolsFrom, List.map_cons, dataRow, hd, hb, hs, Bool.not_true, Bool.false_or, decide_false,
+          Bool.false_eq_true, if_false, hp, groupKey, hlk, hns]
+        rw [h1]
+        simp [kcolsFrom]
+      · intro r hr
+        simp only [List.length_cons]
+        rcases List.mem_append.mp hr with hr | hr
+        · have := h4 r hr; omega
+        · have := (hmain r (List.mem_reverse.mp hr)).2.2.2
+          simp at this
+          omega
+      · intro x hx t htk d hd'
+        rcases List.mem_cons.mp hx with rfl | hx
+        · exact ⟨j, List.mem_append_right _ (List.mem_reverse.mpr (hmem t htk d hd'))⟩
+        · obtain ⟨m, hm⟩ := h5 x hx t htk d hd'
+          exact ⟨m, List.mem_append_left _ hm⟩
+
+theorem takeWhile_all {α : Type} (p : α → Bool) (l : List α) (h : ∀ a ∈ l, p a = true) : l.takeWhile p = l := by
+  induction l with
+  | nil => rfl
+  | cons a rest ih =>
+    simp only [List.takeWhile_cons, h a (by simp), if_true]
+    rw [ih (fun x hx => h x (by simp [hx]))]
+
+theorem digitChars_isDigit : ∀ c ∈ digitChars, c.isDigit = true := by decide
+
+theorem leadingNat_natDigits (n : Nat) : leadingNat (natDigits n) = some n := by
+  have h := natDigits_mem n
+  simp only [leadingNat, takeWhile_all Char.isDigit _ (fun c hc => digitChars_isDigit c (h c hc)),
+    Digits.natDigits_ne_nil, if_false, Digits.digitsToNat_natDigits]
+
+theorem firstNat_natDigits (n : Nat) : firstNat (natDigits n) = some n := by
+  have h := natDigits_mem n
+  cases hd : natDigits n with
+  | nil => exact absurd hd (Digits.natDigits_ne_nil n)
+  | cons x xs =>
+    have hx : x.isDigit = true := digitChars_isDigit x (h x (by rw [hd]; simp))
+    simp only [firstNat, List.dropWhile_cons, hx, Bool.not_true, Bool.false_eq_true, if_false]
+    rw [← hd]
+    exact leadingNat_natDigits n
+
+theorem slash_not_digits (l : List Char) (hl : ∀ c ∈ l, c ∈ digitChars) : '/' ∉ l := by
+  intro h
+  have := hl _ h
+  revert this
+  decide
+
+theorem digit_ne_space : ∀ c ∈ digitChars, (decide (c ≠ ' ')) = true := by decide
+theorem digit_ne_M : ∀ c ∈ digitChars, (c == 'M') = false := by decide
+
+theorem tandemOK_staff (n : Nat) : TandemOK ("*staff".toList ++ natDigits n) (some n) where
+  np1 := by simp
+  np2 := by simp
+  np3 := by simp
+  ok := by
+    intro st k p hk
+    obtain ⟨km, kk, kc, ks⟩ := k
+    simp only at hk
+    subst hk
+    refine ⟨st, ?_, rfl, rfl⟩
+    have hl := leadingNat_natDigits n
+    simp [tandem, startsWith, List.isPrefixOf, hl]
+
+theorem tandemOK_dot : TandemOK dotCell none where
+  np1 := by decide
+  np2 := by decide
+  np3 := by decide
+  ok := by
+    intro st k p hk
+    obtain ⟨km, kk, kc, ks⟩ := k
+    simp only at hk
+    subst hk
+    refine ⟨st, ?_, rfl, rfl⟩
+    simp [tandem, startsWith, List.isPrefixOf, dotCell]
+
+theorem tandemOK_clef (sign : List Char) (line : Nat) (hs : sign = ['G'] ∨ sign = ['F'] ∨ sign = ['C']) :
+    TandemOK ("*clef".toList ++ sign ++ natDigits line) none where
+  np1 := by simp
+  np2 := by simp
+  np3 := by simp
+  ok := by
+    intro st k p hk
+    obtain ⟨km, kk, kc, ks⟩ := k
+    simp only at hk
+    subst hk
+    rcases hs with rfl | rfl | rfl
+    all_goals
+      simp only [tandem, startsWith, parseClef]
+      simp [List.isPrefixOf]
+
+theorem tandemOK_key (f : Int) : TandemOK (keyCell f) none where
+  np1 := by simp [keyCell]
+  np2 := by simp [keyCell]
+  np3 := by simp [keyCell]
+  ok := by
+    intro st k p hk
+    obtain ⟨km, kk, kc, ks⟩ := k
+    simp only at hk
+    subst hk
+    simp only [tandem, startsWith, keyCell]
+    simp [List.isPrefixOf]
+
+theorem tandemOK_meter (b u : Nat) : TandemOK ("*M".toList ++ natDigits b ++ '/' :: natDigits u) none where
+  np1 := by simp
+  np2 := by simp
+  np3 := by simp
+  ok := by
+    intro st k p hk
+    obtain ⟨km, kk, kc, ks⟩ := k
+    simp only at hk
+    subst hk
+    have hb := natDigits_mem b
+    have hu := natDigits_mem u
+    have hsp : ∀ c ∈ natDigits b ++ '/' :: natDigits u, (decide (c ≠ ' ')) = true := by
+      intro c hc
+      rcases List.mem_append.mp hc with hc | hc
+      · exact digit_ne_space c (hb c hc)
+      · rcases List.mem_cons.mp hc with rfl | hc
+        · decide
+        · exact digit_ne_space c (hu c hc)
+    have hpm : parseMeter (natDigits b ++ '/' :: natDigits u) = some (b, u) := by
+      simp only [parseMeter, takeWhile_all _ _ hsp,
+        List.splitOn_append_cons_self_of_not_mem (slash_not_digits _ hb), List.splitOn_eq_singleton (slash_not_digits _ hu),
+        firstNat_natDigits]
+    have hdrop : ("*M".toList ++ natDigits b ++ '/' :: natDigits u).drop 2 = natDigits b ++ '/' :: natDigits u := by simp
+    refine ⟨{ st with tsigs := ⟨km, p, kc, (b, u)⟩ :: st.tsigs }, ?_, rfl, rfl⟩
+    simp only [tandem, startsWith, hdrop, hpm]
+    obtain ⟨x, xs, hdb⟩ : ∃ x xs, natDigits b = x :: xs := by
+      cases h : natDigits b with
+      | nil => exact absurd h (Digits.natDigits_ne_nil b)
+      | cons x xs => exact ⟨x, xs, rfl⟩
+    have hxM : (x == 'M') = false := digit_ne_M x (hb x (by rw [hdb]; simp))
+    have hne : ¬ ('M' = x) := by
+      intro h
+      subst h
+      simp at hxM
+    rw [hdb]
+    simp [List.isPrefixOf, hne]
 
 end C19W
